@@ -1107,6 +1107,9 @@ func c04InForceList(c *Ctx, list ssa.Value) (hostOK, reqOK bool) {
 	if len(srcs) == 0 || (len(srcs) == 1 && srcs[0] == list) {
 		return false, false
 	}
+	if h, r, ok := c04InForceAssembled(c, srcs); ok {
+		return h, r
+	}
 	hostOK, reqOK = true, true
 	for _, src := range srcs {
 		call, ok := src.(*ssa.Call)
@@ -1200,4 +1203,97 @@ func c04InForceList(c *Ctx, list ssa.Value) (hostOK, reqOK bool) {
 		}
 	}
 	return hostOK, reqOK
+}
+
+// c04InForceAssembled: the in-force list is assembled in place (the values
+// stored into a field, all in one function): a one-element literal holding
+// the host platform where no platform was requested, and otherwise an empty
+// make followed by one append per requested platform in a range over
+// options.Platforms. ok is false when the stored values are not of this form.
+func c04InForceAssembled(c *Ctx, srcs []ssa.Value) (hostOK, reqOK, ok bool) {
+	var h *ssa.Function
+	for _, v := range srcs {
+		in, isIn := v.(ssa.Instruction)
+		if !isIn || in.Parent() == nil || (h != nil && h != in.Parent()) {
+			return false, false, false
+		}
+		h = in.Parent()
+	}
+	if h == nil {
+		return false, false, false
+	}
+	isReq := func(v ssa.Value) bool { return optLoad(v, "Platforms") }
+	none, some := map[[2]int]bool{}, map[[2]int]bool{}
+	for _, iff := range ssau.Ifs(h) {
+		if arg, zero, isZ := ssau.LenZeroTest(iff.Cond); isZ && isReq(arg) {
+			none[[2]int{iff.Block().Index, zero}] = true
+			some[[2]int{iff.Block().Index, 1 - zero}] = true
+		}
+	}
+	if len(none) == 0 {
+		return false, false, false
+	}
+	cd := ssau.ControlDeps(h)
+	for _, v := range srcs {
+		blk := v.(ssa.Instruction).Block()
+		onlyNone := !ssau.ReachableAvoidingEdges(h, blk, none)
+		onlySome := !ssau.ReachableAvoidingEdges(h, blk, some)
+		switch x := v.(type) {
+		case *ssa.Slice:
+			// []string{host}
+			al, isAl := x.X.(*ssa.Alloc)
+			if !isAl || !onlyNone {
+				return false, false, false
+			}
+			n, good := 0, false
+			for _, ref := range *al.Referrers() {
+				if ia, ok := ref.(*ssa.IndexAddr); ok {
+					for _, r2 := range *ia.Referrers() {
+						if st, ok := r2.(*ssa.Store); ok && st.Addr == ssa.Value(ia) {
+							n++
+							if hc, ok := st.Val.(*ssa.Call); ok && strings.HasSuffix(ssau.CallName(hc), ".getCurrentPlatform") {
+								good = true
+							}
+						}
+					}
+				}
+			}
+			if n != 1 || !good {
+				return false, false, false
+			}
+			hostOK = true
+		case *ssa.MakeSlice:
+			if z, isC := ssau.ConstInt(x.Len); !isC || z != 0 || !onlySome {
+				return false, false, false
+			}
+		case *ssa.Call:
+			if ssau.CallName(x) != "builtin.append" || !onlySome {
+				return false, false, false
+			}
+			// one append per requested platform: in a range over options.Platforms,
+			// under nothing but the loop itself
+			good := false
+			for _, l := range ssau.RangeLoops(h) {
+				if l.IsMap || l.Over == nil || !isReq(l.Over) || !l.InLoop(x.Block()) {
+					continue
+				}
+				only := true
+				for _, d := range ssau.TransitiveControlDeps(cd, x.Block()) {
+					if d.Branch != l.Header && l.InLoop(d.Branch) {
+						only = false
+					}
+				}
+				if only && appendedSingle(x) != nil {
+					good = true
+				}
+			}
+			if !good {
+				return false, false, false
+			}
+			reqOK = true
+		default:
+			return false, false, false
+		}
+	}
+	return hostOK, reqOK, true
 }
